@@ -191,6 +191,29 @@ func (s *slicer) stores(a *ssa.Alloc, field *types.Var, ctx *sliceCtx, depth int
 					s.walk(st.Val, 0, ctx, depth+1)
 				}
 			}
+		case *ssa.IndexAddr:
+			// element of a local array (the backing array of a variadic/append literal): stores to the
+			// element or to its fields
+			if field != nil || x.Referrers() == nil {
+				continue
+			}
+			for _, rr := range *x.Referrers() {
+				switch y := rr.(type) {
+				case *ssa.Store:
+					if y.Addr == ssa.Value(x) {
+						s.walk(y.Val, 0, ctx, depth+1)
+					}
+				case *ssa.FieldAddr:
+					if y.Referrers() == nil {
+						continue
+					}
+					for _, r3 := range *y.Referrers() {
+						if st, ok := r3.(*ssa.Store); ok && st.Addr == ssa.Value(y) {
+							s.walk(st.Val, 0, ctx, depth+1)
+						}
+					}
+				}
+			}
 		}
 	}
 }
